@@ -1,5 +1,6 @@
 import SamplyModel.Proto
 import SamplyModel.Model.Quota
+import SamplyModel.Model.QuotaConc
 /-!
 Line protocol for C15.
 
@@ -25,6 +26,13 @@ ops:
                    i < count the file `<dir>/k<i>` is reported `created` with `size` at the time
                    `time0 - ((i·mult) mod count)·step`; before that it is really written (`mkfile`) when
                    `mk ≠ 0` and `mk ∣ i`. Stops at the first notification that does not return normally.
+  passbegin | passstep | passend
+                   the lock gap (Model/QuotaConc.lean): `passbegin` triggers a pass and lets it run up to its first
+                   `remove_file` (selection done, inventory mutex released); every `passstep` lets exactly one file be
+                   unlinked and its bookkeeping be done (and whatever follows up to the next `remove_file`: the age
+                   selection, the end of the pass); `passend` lets the pass run to its end and calls `finish()`.
+                   Between them notifications, settings and external file-system ops run "concurrently" with the
+                   pass; open/close/restart/evict*/bulk are refused (`bad`).
   evictrace        `trigger_eviction_if_needed` immediately followed by `finish()` (no waiting): tokio's
                    `select!` runs the pass or not; the harness repeats the case until the pass ran, so the
                    expected observation is that of `evictasync` — a pass cut short by `finish()` is not.
@@ -161,22 +169,56 @@ def showStatus : Status → String
 def showLine (st : Status) (w : World) : String :=
   s!"{showStatus st} | {showInv w.db} | {showFs w.fs}"
 
+/-- may this op run while a stepped pass is parked? -/
+def allowedInPass : Op → Bool
+  | .created .. | .accessed .. | .deleted .. | .mkfile _ | .mkdir _ | .symlink .. | .rm _
+  | .setMaxSize _ | .setMaxAge _ => true
+  | _ => false
+
+def showLineC (st : Status) (cw : CWorld) : String := showLine st cw.w
+
 def model (ls : List String) : List String :=
-  let rec go (w : World) (ls : List String) (acc : List String) : List String :=
+  let rec go (cw : CWorld) (inPass : Bool) (ls : List String) (acc : List String) : List String :=
     match ls with
     | [] => acc.reverse
     | l :: rest =>
+      match words l with
+      | ["passbegin"] =>
+        if inPass then go cw inPass rest (showLineC .bad cw :: acc)
+        else if cw.w.mgr.isNone then go cw inPass rest (showLineC .nomgr cw :: acc)
+        else
+          let cw' := settle vnow (passBegin cw)
+          go cw' true rest (showLineC .ok cw' :: acc)
+      | ["passstep"] =>
+        if !inPass then go cw inPass rest (showLineC .bad cw :: acc)
+        else
+          let cw' := settle vnow (pstep vnow (pstep vnow cw))
+          go cw' true rest (showLineC .ok cw' :: acc)
+      | ["passend"] =>
+        if !inPass then go cw inPass rest (showLineC .bad cw :: acc)
+        else
+          let cw1 := finishPass vnow 1000000 cw
+          let poisoned := match cw1.w.mgr with | some m => m.poisoned | none => false
+          let cw' := { cw1 with w := (step vnow cw1.w .close).1 }
+          go cw' false rest (showLineC (if poisoned then .panic else .ok) cw' :: acc)
+      | _ =>
       match parseBulk l with
       | some b =>
-        let r := runOps w b.ops
-        go r.1 rest (showLine r.2 r.1 :: acc)
+        if inPass then go cw inPass rest (showLineC .bad cw :: acc)
+        else
+          let r := runOps cw.w b.ops
+          let cw' := { cw with w := r.1 }
+          go cw' inPass rest (showLineC r.2 cw' :: acc)
       | none =>
       match parseOp l with
-      | none => go w rest ("bad-op" :: acc)
+      | none => go cw inPass rest ("bad-op" :: acc)
       | some op =>
-        let r := step vnow w op
-        go r.1 rest (showLine r.2 r.1 :: acc)
-  go World.init ls []
+        if inPass && !allowedInPass op then go cw inPass rest (showLineC .bad cw :: acc)
+        else
+          let r := step vnow cw.w op
+          let cw' := { cw with w := r.1 }
+          go cw' inPass rest (showLineC r.2 cw' :: acc)
+  go (CWorld.ofWorld World.init) false ls []
 
 /-! ### The judge: the statement of C15 evaluated on the implementation's own observations
 
@@ -228,6 +270,10 @@ structure JSt where
   poisonOk : Bool := false
   lastEvictOk : Bool := false
   links : List (Path × Path) := []
+  /-- a stepped pass is running: table and listing at `passbegin`, keys notified / touched since -/
+  pass : Option (List Row × FS × List Path × List Path) := none
+  /-- the maximum age when the stepped pass began (the pass works with that snapshot) -/
+  passAge : Option Nat := none
 
 /-- where a name physically lives: the resolved path; for a name that does not resolve, its resolved
 directory plus the name; the literal path when not even the directory resolves -/
@@ -512,11 +558,95 @@ def judgeBulk (st : JSt) (b : BulkSpec) (o : Obs) : Except String JSt := do
     return st'
   | _, _, _ => return st'
 
+/-- key (path relative to the root) a name denotes, for the racing clauses -/
+def keyOf (fs : FS) (root p : Path) : Option Path :=
+  let q := physPath fs p
+  if isPrefix root q then some (q.drop root.length) else none
+
+def opPath : Op → Option Path
+  | .created p _ _ | .accessed p _ | .deleted p | .mkfile p | .mkdir p | .symlink p _ | .rm p => some p
+  | _ => none
+
+/-- **order-independent clauses** for one observation of a stepped pass (`passstep` / `passend`): only rows
+disappear, only nodes disappear, none of them outside the root, every deleted node is the file of a row
+that was in the table since the pass began; and the one order-*dependent* check that is a candidate
+finding: a file reported `created` while the pass ran is deleted by the pass afterwards. -/
+def judgePassDelta (st : JSt) (root : Path) (I0 I I' : List Row) (F F' : FS) (createdKeys : List Path) :
+    Except String Unit := do
+  if !isSublist I' I then throw "[inventory-altered] a pass changed or added rows"
+  if !(fsKeys F').all (fun k => F.lookup k == F'.lookup k) then
+    throw "[disk-altered] a pass created or changed a node"
+  let D := (fsKeys F).filter (fun k => (F'.lookup k).isNone)
+  match D.find? (fun k => !isPrefix root k) with
+  | some k => throw s!"[outside-root-deleted] {showPath k} lies outside the managed root {showPath root} and was deleted"
+  | none => pure ()
+  let cands := (I0 ++ I).filterMap (fun r => unlinkTarget F (rowPath F root r))
+  match D.find? (fun k => !cands.contains k) with
+  | some k => throw s!"[race-unselected-file-deleted] {showPath k} was deleted but is not the file of any row recorded since the pass began"
+  | none => pure ()
+  let R := I.filter (fun r => !I'.contains r)
+  -- a row reported while the pass ran can only have been selected *after* the report by the age selection
+  -- (the size selection is over when `passbegin` returns): if it is not too old, it was selected before
+  let cutoff : Option Nat := st.passAge.map (vnow - ·)
+  let aged (r : Row) : Bool := match cutoff with | some c => decide (r.atime < c) | none => false
+  match R.find? (fun r => createdKeys.contains r.rel && !aged r) with
+  | some r => throw s!"[race-recreated-file-deleted] {showRel r.rel} was reported as created while the pass was running (after the selection); the pass then deleted the new file and forgot the new row although it is the most recently used one"
+  | none => pure ()
+  pure ()
+
+/-- bookkeeping = disk after quiescence, for the rows of the table at `passbegin` whose key was neither
+notified nor touched on disk while the pass ran -/
+def judgeQuiescence (root : Path) (I0 Iend : List Row) (F0 Fend : FS) (touched : List Path) :
+    Except String Unit := do
+  let quiet := I0.filter (fun r => !touched.any (fun t => isPrefix t r.rel))
+  match quiet.find? (fun r => !Iend.contains r && rowPresent Fend root r) with
+  | some r => throw s!"[forgotten-row-still-on-disk] {showRel r.rel}"
+  | none => pure ()
+  match quiet.find? (fun r => Iend.contains r && rowPresent F0 root r && !rowPresent Fend root r) with
+  | some r => throw s!"[kept-row-file-deleted] the file of row {showRel r.rel} was deleted by the pass but the row was kept"
+  | none => pure ()
+
+def judgePassOp (st : JSt) (w : String) (o : Obs) : Except String JSt := do
+  if o.status ∉ ["ok", "panic", "nomgr", "bad"] then throw s!"[harness] status {o.status}"
+  let st' : JSt := { st with inv := o.inv, fs := o.fs, lastEvictOk := false }
+  if o.status = "nomgr" ∨ o.status = "bad" then
+    if o.inv != st.inv ∨ fsKeys o.fs != fsKeys st.fs then throw "[harness] rejected op changed the state"
+    return st'
+  match st.root, st.inv, o.inv with
+  | some root, some I, some I' =>
+    if w = "passbegin" then
+      if o.inv != st.inv ∨ fsKeys o.fs != fsKeys st.fs then throw "[pass] the selection changed the state"
+      return { st' with pass := some (I, st.fs, [], []), passAge := st.maxAge }
+    match st.pass with
+    | none => throw "[harness] pass op without a running pass"
+    | some (I0, F0, touched, createdKeys) =>
+      match judgePassDelta st root I0 I I' st.fs o.fs createdKeys with
+      | .error e => throw e
+      | .ok _ => pure ()
+      if w = "passstep" then
+        if o.status = "panic" then throw "[panic] a pass step panicked"
+        return st'
+      -- passend
+      if o.status = "panic" ∧ !st.poisonOk then throw "[panic] finish() panicked after a stepped pass"
+      match judgeQuiescence root I0 I' F0 o.fs touched with
+      | .error e => throw e
+      | .ok _ => pure ()
+      return { st' with pass := none, root := none, poisonOk := false }
+  | _, _, _ => throw "[harness] pass op without manager or database"
+
 def judge (ops impl : List String) : Bool × String :=
   if impl.length ≠ ops.length then (false, "[harness] wrong number of output lines") else
   let rec go (st : JSt) (ops impl : List String) (k : Nat) : Bool × String :=
     match ops, impl with
     | l :: ls, o :: os =>
+      if l.trimAscii.toString ∈ ["passbegin", "passstep", "passend"] then
+        match parseObs st.links o with
+        | none => (false, s!"[harness] unparsable output line {k}: {o}")
+        | some obs =>
+          match judgePassOp st l.trimAscii.toString obs with
+          | .error e => (false, s!"{e} (op {k}: {l})")
+          | .ok st' => go st' ls os (k + 1)
+      else
       match parseBulk l with
       | some b =>
         match parseObs st.links o with
@@ -537,7 +667,16 @@ def judge (ops impl : List String) : Bool × String :=
         | some obs =>
           match judgeStep { st with links := links } op obs with
           | .error e => (false, s!"{e} (op {k}: {l})")
-          | .ok st' => go st' ls os (k + 1)
+          | .ok st' =>
+            let pass' := match st.pass, st.root, opPath op with
+              | some (I0, F0, touched, cr), some root, some p =>
+                match keyOf obs.fs root p with
+                | some key =>
+                  let cr' := match op with | .created .. => key :: cr | _ => cr
+                  some (I0, F0, key :: touched, cr')
+                | none => some (I0, F0, touched, cr)
+              | ps, _, _ => ps
+            go { st' with pass := pass' } ls os (k + 1)
     | _, _ => (true, "ok")
   go {} ops impl 0
 
